@@ -8,8 +8,10 @@ From AV Require Export Model.BatchFail.
 Record input := mkIn {
   i_kind : kind; i_pre : bool; i_db : tables; i_t : name;
   i_nd : tdef; i_tr : list transfer; i_ixs : list idx;      (* what _create was about to build: new definition, copy mapping, trailing indexes *)
-  i_faults : list nat;                                       (* positions (in sending order) of the statements made to raise *)
-  i_scope : scope }.
+  i_faults : list (nat * err);                               (* positions (in sending order) of the statements made to raise, and what they raise *)
+  i_scope : scope;
+  i_tddl : option bool }.                                    (* the context option transactional_ddl: unset / True / False.  flush and _create never read it:
+                                                                 the model takes it as an input and ignores it; the correspondence checks exactly that *)
 
 (* an observed table: definition identity, rows (a multiset), index names (a set) *)
 Definition otable := (N * list row * list name)%type.
@@ -30,7 +32,7 @@ Definition obs_of (tb:tables) : obs :=
   flat_map (fun n => match option_map abs_table (lookup n tb) with Some x => [(n, x)] | None => [] end) (table_names tb).
 
 Definition model_res (i:input) : result :=
-  run_batch (i_kind i) (i_pre i) (i_db i) (i_t i) (i_nd i) (i_tr i) (i_ixs i) (faults_of (i_faults i)) (i_scope i).
+  run_batch (i_kind i) (i_pre i) (i_db i) (i_t i) (i_nd i) (i_tr i) (i_ixs i) (faults_of (i_faults i)) (inj_of (i_faults i)) (i_scope i).
 Definition model_out (i:input) : output :=
   let r := model_res i in mkOut (r_err r) (r_log r) (obs_of (r_mid r)) (obs_of (r_final r)).
 
@@ -51,7 +53,7 @@ Definition obs_eqb (a b:obs) : bool :=
 
 Definition err_eqb (a b:err) : bool :=
   match a, b with
-  | EInjected, EInjected | EIntegrity, EIntegrity | EOperational, EOperational | EOther, EOther => true
+  | EInjected, EInjected | EInterrupt, EInterrupt | EIntegrity, EIntegrity | EOperational, EOperational | EOther, EOther => true
   | _, _ => false
   end.
 Definition oerr_eqb (a b:option err) : bool :=
